@@ -2,7 +2,7 @@
    instances of its target class on which the parsed formula fails - the classical formula wherever the atoms met under
    negation are complementary. *)
 From ACV Require Import Base.Strs Model.Graph Model.PathGrammar Model.PathSem Model.Dnf Model.Rules Model.Report Model.Engine Model.Yaml Model.ProfileParser.
-From ACV Require Import Proofs.PathSemProofs Proofs.RulesProofs Proofs.ParserCongruence.
+From ACV Require Import Proofs.PathSemProofs Proofs.RulesProofs Proofs.ParserCongruence Proofs.ParserMessages.
 Local Open Scope list_scope.
 
 Lemma level_in_all (l : level) : In l (Violation :: Warning :: Info :: nil).
@@ -82,3 +82,37 @@ Qed.
 Example verdict_from_text_example :
   exists v, verdict [] ex_doc ex_graph = POk v /\ In (Violation, "a", "n1", "m")%string v /\ ~ In (Violation, "a", "n2", "m")%string v.
 Proof. eexists. split; [vm_compute; reflexivity|]. split; [simpl; auto|]. simpl. intros [H|[H|[]]]; discriminate H. Qed.
+
+(* C12 from the text: every entry of the verdict names a validation that the document defines under `validations` and lists
+   under the level of the entry; its message is the one the parser assigns to that validation *)
+Lemma parse_profile_structure defaults doc p : parse_profile defaults doc = POk p ->
+  exists vals, yget "validations"%string doc = Some (YMap vals) /\
+    (forall ln, In ln (p_listed p) -> In ln (listed_of doc)) /\
+    (forall d, In d (p_defs p) -> exists body, In (v_name d, body) vals /\ v_msg d = Proofs.ParserMessages.message_of body).
+Proof.
+  intros H. destruct doc as [t a|l|s]; try discriminate. rewrite parse_profile_unfold in H.
+  destruct (yget "profile" (YMap l)) as [n|]; try discriminate. destruct (y_string n); try discriminate.
+  destruct (present "rego_extensions" (YMap l)); try discriminate.
+  destruct (prefixes_of (YMap l)) as [pfx| |]; cbn [pbind] in H; try discriminate. cbv zeta in H.
+  destruct (yget "validations" (YMap l)) as [vm|]; try discriminate. destruct vm as [| vals |]; try discriminate.
+  match type of H with pbind (map_p ?f ?used) _ = _ => destruct (map_p f used) as [defs| |] eqn:E; cbn [pbind] in H; try discriminate end.
+  injection H as Hp. subst p. exists vals. split; [reflexivity|]. split.
+  - intros ln Hln. simpl in Hln. apply filter_In in Hln. tauto.
+  - intros d Hd. simpl in Hd. destruct (Proofs.ParserMessages.map_p_In _ _ _ _ E Hd) as [[k body] [Hin Hf]].
+    apply filter_In in Hin as [Hin _]. destruct (Proofs.ParserMessages.parse_def_message _ _ _ _ Hf) as [En Em].
+    exists body. rewrite En. auto.
+Qed.
+
+Theorem verdict_names_from_text : forall defaults doc g v, verdict defaults doc g = POk v ->
+  exists vals, yget "validations"%string doc = Some (YMap vals) /\
+  forall l nm fo msg, In (l, nm, fo, msg) v ->
+    In (l, nm) (listed_of doc) /\ (exists n, In n g /\ nid n = fo) /\ exists body, In (nm, body) vals /\ msg = Proofs.ParserMessages.message_of body.
+Proof.
+  intros defaults doc g v H. destruct (verdict_from_text defaults doc g v H) as [p [Hp Hv]].
+  destruct (parse_profile_structure defaults doc p Hp) as [vals [Hvals [Hl Hd]]]. exists vals. split; [assumption|].
+  intros l nm fo msg Hin. apply Hv in Hin as [d [n [Hln [Ed [Em [Hn [Ef _]]]]]]].
+  split; [now apply Hl|]. split; [eauto|].
+  assert (Hdin : In d (p_defs p)) by (unfold find_def in Ed; apply find_some in Ed; tauto).
+  assert (Enm : v_name d = nm) by (unfold find_def in Ed; apply find_some in Ed as [_ E]; now apply String.eqb_eq in E).
+  destruct (Hd d Hdin) as [body [Hb Hm]]. exists body. rewrite <- Enm. split; [assumption|congruence].
+Qed.
